@@ -838,6 +838,106 @@ fn client_conditions(rep: &mut SearchReport) -> Result<(), String> {
         }
         fc.destroy();
     }
+    // ---- arguments the call itself rejects: the completion callback still fires exactly once
+    {
+        let peer = Peer::start();
+        let frt = FfiRuntime::new(2)?;
+        let fc = FfiClient::create(&frt, peer.port, 4, decode_level(0, 0, 0))?;
+        fc.enable();
+        if !wait_state(&fc.states, "Connected", long) {
+            return Err("INFRA: not connected".to_string());
+        }
+        // (what, op, start, count)
+        let rows: [(&str, Op, u16, u16); 12] = [
+            ("count_zero", Op::ReadCoils, 0, 0),
+            ("count_zero", Op::ReadDiscrete, 0, 0),
+            ("count_zero", Op::ReadHolding, 0, 0),
+            ("count_zero", Op::ReadInput, 0, 0),
+            ("range_past_65535", Op::ReadCoils, 65535, 2),
+            ("range_past_65535", Op::ReadDiscrete, 65535, 2),
+            ("range_past_65535", Op::ReadHolding, 65535, 2),
+            ("range_past_65535", Op::ReadInput, 65530, 100),
+            ("empty_list", Op::WriteCoils, 5, 0),
+            ("empty_list", Op::WriteRegs, 5, 0),
+            ("range_past_65535", Op::WriteCoils, 65535, 2),
+            ("range_past_65535", Op::WriteRegs, 65535, 2),
+        ];
+        for (what, op, start, count) in rows {
+            let sc = Scenario { op, unit: 1, start, count, seed: 3, timeout_ms: 500 };
+            peer.seen.lock().unwrap().clear();
+            let (rc, slot) = ffi_submit(fc.ch, &sc);
+            let got = wait_slot(&slot, Duration::from_millis(600));
+            std::thread::sleep(Duration::from_millis(5));
+            let n = slot.lock().unwrap().completions.len();
+            let sent = peer.seen.lock().unwrap().len();
+            let case = json!({"table": "conditions", "what": what, "op": format!("{:?}", op), "start": start, "count": count});
+            rep.stats.evaluations += 1;
+            if rc == 0 {
+                fail(rep, format!("{}: the call accepted arguments the Rust API rejects", case), case);
+                return Ok(());
+            }
+            if sent != 0 {
+                fail(rep, format!("{}: the call reported {:?} but a request was transmitted", case, ffi::ParamError::from(rc)), case);
+                return Ok(());
+            }
+            if n != 1 {
+                fail(
+                    rep,
+                    format!(
+                        "{}: the call reported {:?}; its completion callback fired {} times ({:?}), expected exactly once",
+                        case,
+                        ffi::ParamError::from(rc),
+                        n,
+                        got
+                    ),
+                    case,
+                );
+                return Ok(());
+            }
+            rep.stats.nontrivial_total += 1;
+            rep.stats.distinct.insert(crate::runner::hash_of(&format!("{}", case)));
+        }
+        // null pointers: list and channel
+        for (what, null_channel) in [("null_list", false), ("null_channel", true)] {
+            for regs in [false, true] {
+                let slot: SlotRef = Default::default();
+                let param = ffi::RequestParam { unit_id: 1, timeout: 500 };
+                let ch = if null_channel { std::ptr::null_mut() } else { fc.ch };
+                let rc = unsafe {
+                    if regs {
+                        let l = if null_channel { ffi::rodbus_register_list_create(1) } else { std::ptr::null_mut() };
+                        let rc = ffi::rodbus_client_channel_write_multiple_registers(ch, param, 1, l, write_callback(&slot));
+                        if !l.is_null() {
+                            ffi::rodbus_register_list_destroy(l);
+                        }
+                        rc
+                    } else {
+                        let l = if null_channel { ffi::rodbus_bit_list_create(1) } else { std::ptr::null_mut() };
+                        let rc = ffi::rodbus_client_channel_write_multiple_coils(ch, param, 1, l, write_callback(&slot));
+                        if !l.is_null() {
+                            ffi::rodbus_bit_list_destroy(l);
+                        }
+                        rc
+                    }
+                };
+                let got = wait_slot(&slot, Duration::from_millis(300));
+                let n = slot.lock().unwrap().completions.len();
+                let case = json!({"table": "conditions", "what": what, "op": if regs { "WriteRegs" } else { "WriteCoils" }});
+                rep.stats.evaluations += 1;
+                if rc == 0 || n != 1 {
+                    fail(
+                        rep,
+                        format!("{}: the call returned {:?}; its completion callback fired {} times ({:?}), expected an error and exactly one completion", case, ffi::ParamError::from(rc), n, got),
+                        case,
+                    );
+                    return Ok(());
+                }
+                rep.stats.nontrivial_total += 1;
+                rep.stats.distinct.insert(crate::runner::hash_of(&format!("{}", case)));
+            }
+        }
+        fc.destroy();
+    }
     // ---- shutdown: runtime destroyed, then calls on the orphaned channel
     {
         let peer = Peer::start();
